@@ -127,6 +127,8 @@ def body(chk, db, cfgname):
         why = partial or "the partition function is not accumulated over all blocks in one full loop and applied in a second full loop"
         if partial is None and not (ph1 and ph2) and len(norm_calls) == 1 and len(cu_calls) == 1:
             unk(g, "computeUnnormalized()/normalize() are not called from loops over the parts (algorithm / helper form)")
+        if partial is None and (len(norm_calls) == 0 or len(cu_calls) == 0):
+            unk(g, "computeUnnormalized()/normalize() are not called directly in compute() (closure / helper / algorithm form)")
         if partial is not None:
             pass
         elif len(norm_calls) != 1 or len(cu_calls) != 1:
